@@ -269,4 +269,12 @@ def r14_4_freshness(repo: Repo, rep: Report):
         rep.check("R14.4", ok, ms, fn, f"{q}: increments cnts['{key}'] before use", "counter must advance on every use")
 
 
-RULES = [r14_1_prank_consumption, r14_2_selector_effect_table, r14_3_encoders, r14_4_freshness]
+def r14_5_shared(repo: Repo, rep: Report):
+    """state written by cheatcodes (block fields, prank records) must stay inside the path / transaction that wrote it:
+    fork-copy and per-transaction copy completeness (shared with C20)"""
+    from hsa.rules.c20 import r20_1_fork_copies
+
+    r20_1_fork_copies(repo, rep)
+
+
+RULES = [r14_5_shared, r14_1_prank_consumption, r14_2_selector_effect_table, r14_3_encoders, r14_4_freshness]
